@@ -256,7 +256,7 @@ func genInbox(r *Rng, prop string, k int) *RunSpec {
 		}
 		if r.Intn(4) == 0 {
 			// the Accept answers several Follows at once; somebody else's comes first
-			other := J{"type": "Follow", "id": "https://" + hostA + "/f/3", "actor": st.Carol.ID, "object": actorIDs}
+			other := J{"type": "Follow", "id": "https://" + hostA + "/f/3", "actor": Pick(r, []string{st.Carol.ID, st.Alice.ID}), "object": actorIDs} // (the stored f/3 is carol's, whatever the peer's copy claims)
 			if r.Bool() {
 				other = J{"type": "Follow", "id": "https://" + hostR + "/f/77", "actor": "https://" + hostR + "/u/zed", "object": actorIDs}
 			}
